@@ -1,5 +1,6 @@
 SPECIFICATION TSpec
 CONSTANTS
   RaceTokenWait = TRUE
+  SubPermitRace = FALSE
 INVARIANTS Report
 CHECK_DEADLOCK FALSE
